@@ -62,6 +62,9 @@ def run(ctx, drv):
             subsets = rng.sample(subsets, 5)
 
         rng_cap, rng_div = rng.randrange(2, 5), rng.randrange(2, 4)
+        pen = (rng.randrange(len(pts)), rng.randrange(nobjs)) if t % 4 == 1 else None
+        if pen is not None:
+            ctx.count("indicator_sets_with_an_infinite_penalty")
 
         def evaluate(dr, P, R, reuse=None):
             if reuse is None:
@@ -98,6 +101,16 @@ def run(ctx, drv):
             C.nondominated_sort(work)
             out["ranks"] = [s.rank for s in sols]
             fresh = lambda L: [mk_sol(p, list(s.objectives), s.constraint_violation) for s in L]
+            if pen is not None:
+                # one member of the evaluated set carries an infinite penalty in one objective -- on the bad side of that objective's
+                # declared direction (+inf when minimised, -inf when maximised): the same set on both sides of the mirror
+                def fresh(L, _pen=pen):
+                    def objs_(i_, s_):
+                        o_ = list(s_.objectives)
+                        if L is sols and i_ == _pen[0]:
+                            o_[_pen[1]] = -math.inf if dr[_pen[1]] else math.inf
+                        return o_
+                    return [mk_sol(p, objs_(i_, s_), s_.constraint_violation) for i_, s_ in enumerate(L)]
             out["gd"] = call(lambda: I.GenerationalDistance(fresh(ref)).calculate(fresh(sols)))
             out["igd"] = call(lambda: I.InvertedGenerationalDistance(fresh(ref)).calculate(fresh(sols)))
             out["epsind"] = call(lambda: I.EpsilonIndicator(fresh(ref)).calculate(fresh(sols)))
@@ -118,6 +131,8 @@ def run(ctx, drv):
             if reuse_now:
                 ctx.count("flips_on_the_same_problem_object")
             inp = {"maximise": list(dirs), "flipped_objectives": list(S), "set": [[p, cv] for p, cv in zip(pts, cvs)], "reference": rpts, "epsilons": eps}
+            if pen is not None:
+                inp["infinite_penalty_for_the_indicators"] = {"member": pen[0], "objective": pen[1]}
             for key in ("pareto", "eps", "same_box", "archive", "eps_archive", "ranks", "grid_archive"):
                 if base[key] != other[key]:
                     cls = None
@@ -132,7 +147,7 @@ def run(ctx, drv):
                 if key not in base:
                     continue
                 a, b = base[key], other[key]
-                same = (a == b) if (isinstance(a, str) or isinstance(b, str)) else (close(a, b, 0.0 if lattice and key.startswith("hv") else 1e-9))
+                same = (a == b) if (isinstance(a, str) or isinstance(b, str)) else (close(a, b, 0.0 if lattice and key.startswith("hv") else 1e-9) or (a != a and b != b))
                 if not same:
                     ctx.fail(f"{key}-changes-under-flip", inp, b, a, "indicators")
             # the model on both sides of the pair (Pareto comparison table on the exact wire)
